@@ -44,18 +44,20 @@ let obs_str (s' : st) = function
   | BReopen true -> Printf.sprintf "O ok %s %s" (hex64 (tab_hash (offs s'))) (hex64 (tab_hash (tss s')))
   | BReopen false -> "O err"
 
-(* all-chunks digest of a (possibly damaged) file as a freshly loaded region sees it, skipping chunk `skip` *)
+(* a (possibly damaged) file as a freshly loaded region sees it: digest of the results of reading every chunk
+   except `skip`, then what chunk `skip` itself reads as *)
 let crash_digest (f : file) (skip : int) : string =
   match load f with
   | LErrShort -> "loaderr"
   | LOk s ->
       let h = ref fnv_init in
+      let own = ref "" in
       for i = 0 to 1023 do
-        if i <> skip then begin
-          let r = read_sector s (n_of_int (i mod 32)) (n_of_int (i / 32)) in
-          String.iter (fun c -> h := fnv_step !h (Char.code c)) (rres_str r)
-        end
-      done; hex64 !h
+        let x = n_of_int (i mod 32) and z = n_of_int (i / 32) in
+        let r = rres_str (read_sector s x z) ^ (if exist_sector s x z then "+" else "-") in
+        if i <> skip then String.iter (fun c -> h := fnv_step !h (Char.code c)) r
+        else own := String.map (fun c -> if c = ' ' then ',' else c) r
+      done; hex64 !h ^ "/" ^ !own
 
 let () = iter_lines (fun line ->
   match String.index_opt line ' ' with
